@@ -19,6 +19,7 @@ import (
 	"verif/harness/internal/c12"
 	"verif/harness/internal/c13"
 	"verif/harness/internal/c19"
+	"verif/harness/internal/c20"
 	"verif/harness/internal/fw"
 	"verif/harness/internal/victim"
 )
@@ -113,6 +114,9 @@ func main() {
 	case "C19":
 		res.Rule = "exhaustive: 10 default sets x 10 caller sets x {attached, not} x 3 required permissions x 2 method shapes through the real PermissionedProxy, and 14 Authorization header forms x 6 token query forms through the real auth.Handler; every case is distinct and non-trivial (a permission decision is taken)"
 		err = c19.Run(d, res)
+	case "C20":
+		res.Rule = "lengths {0,1,2,4095,4096,4097,8192,65537,1MiB (+5MiB, 511..513, 33333 thorough)} x 7 handler read patterns (ReadAll, byte-at-a-time, read past EOF, close after EOF, early close, double close + read, odd chunks) x arrival order {natural, decoder first, upload first} x {ws, http} x 1..8 concurrent calls with different contents; every read/close is traced and replayed through the model; every case is non-trivial"
+		err = c20.Run(d, res, *seed, thorough)
 	default:
 		err = fmt.Errorf("unknown property %s", prop)
 	}
